@@ -499,8 +499,7 @@ Lemma unprotect_pre_len_h :
   hoare (eq w0) unprotect_pre
     (fun u _ => exists st k, pkt_stream (w_s w0) ssrc = Some st /\
                  receiver_key st (cur_src (w_b w0)) L (rtp_tag0 st) = Some k /\
-                 12 <= L /\ 0 <= u_enc_start u /\
-                 u_enc_start u <= u64 (L - ak_tag (k_rtp_a k) - s_mki_size st) /\
+                 12 <= L /\
                  u_enc_len u = u64 (L - u_enc_start u - s_mki_size st - ak_tag (k_rtp_a k)) /\
                  u64 (L - s_mki_size st - ak_tag (k_rtp_a k)) <= C) TT.
 Proof.
@@ -532,13 +531,9 @@ Proof.
   apply h_returns.
   apply r_bind; intros inuse. apply r_bind; intros xl.
   change octets_in_rtp_header_c with 12. change octets_in_rtp_xtn_hdr_c with 4.
-  match goal with |- context [u64 (L - ak_tag (k_rtp_a k) - s_mki_size st) <? ?e] => remember e as es eqn:Hes end.
-  assert (ES : 0 <= es).
-  { subst es. destruct inuse; [apply u64_range|]. pose proof (hdr_cc_range pkt). pose proof (hdr_len_eq pkt).
-    pose proof (xtn_len_ge pkt). destruct (hdr_x pkt =? 1); lia. }
-  destruct (u64 (L - ak_tag (k_rtp_a k) - s_mki_size st) <? es) eqn:E2; [apply r_bind_exit|]. apply r_bind_ret.
+  apply r_bind; intros ?.
   destruct (C <? u64 (L - s_mki_size st - ak_tag (k_rtp_a k))) eqn:E3; [apply r_bind_exit|]. apply r_bind_ret.
-  apply Z.ltb_ge in E2, E3.
+  apply Z.ltb_ge in E3.
   apply r_bind; intros ?. apply r_bind; intros cs1. apply r_ret.
   cbn [u_enc_start u_enc_len]. exists st, k. repeat split; assumption.
 Qed.
@@ -554,7 +549,7 @@ Theorem unprotect_length w' l :
 Proof.
   intros HL HC E. unfold unprotect in E. apply bind_inv in E.
   destruct E as [(u & w1 & E1 & E2)|(s & _ & E)]; [|discriminate].
-  destruct (hoare_returns _ _ _ _ _ _ unprotect_pre_len_h eq_refl E1) as (st & k & H1 & H2 & H3 & H4 & H5 & H6 & H7).
+  destruct (hoare_returns _ _ _ _ _ _ unprotect_pre_len_h eq_refl E1) as (st & k & H1 & H2 & H3 & H6 & H7).
   pose proof (unprotect_post_len u _ _ _ E2) as V. cbv beta in V.
   exists st, k. split; [exact H1|]. split; [exact H2|].
   pose proof (pkt_stream_wf _ _ _ HW H1) as W. destruct (receiver_key_wf _ _ _ _ _ W H2) as (_ & [T _] & _).
@@ -562,9 +557,13 @@ Proof.
   assert (A0 : 0 <= L - s_mki_size st - ak_tag (k_rtp_a k)).
   { destruct (Z_lt_le_dec (L - s_mki_size st - ak_tag (k_rtp_a k)) 0) as [N|]; [|assumption].
     rewrite u64_neg in H7 by lia. lia. }
-  rewrite u64_small in H7 by lia. rewrite u64_small in H5 by lia.
-  rewrite H6 in V. rewrite (u64_small (L - u_enc_start u - s_mki_size st - ak_tag (k_rtp_a k))) in V by lia.
-  rewrite u64_small in V by lia. lia.
+  rewrite u64_small in H7 by lia.
+  (* enc_start + (len - enc_start - mki - tag) mod 2^64, taken mod 2^64, is len - mki - tag
+     whatever enc_start is *)
+  rewrite H6 in V. unfold u64 in V. rewrite Z.add_mod_idemp_r in V by lia.
+  replace (u_enc_start u + (L - u_enc_start u - s_mki_size st - ak_tag (k_rtp_a k)))
+    with (L - s_mki_size st - ak_tag (k_rtp_a k)) in V by lia.
+  rewrite Z.mod_small in V by lia. lia.
 Qed.
 End RTP_LEN2.
 Print Assumptions unprotect_length.
